@@ -61,6 +61,7 @@ type FuncContract struct {
 	CallGhost   map[string][]GhostUpdate // callsite SIG: ghost NAME = EXPR: updates after a call through a function value ($result)
 	SafetyOff   map[string]string   // safety class -> reason (not claimed)
 	InlineCalls []string            // callees to inline here even though they have a contract
+	ContractCalls []string          // callees whose contract is applied here although they are marked "inlined"
 	HavocKeeps  map[string][]string // callee -> struct types whose fields the abstraction keeps (justified structurally, keeps.go)
 	HavocCalls  []string            // callees abstracted by "anything may have happened to the heap" (sound over-approximation)
 	CallSites   map[string][]Clause // signature string -> obligations at every call through a function value of that type
@@ -89,6 +90,7 @@ type SpecFunc struct {
 	Body      *CExpr
 	Text      string
 	Recursive bool
+	Opaque    bool // declared "spec opaque": treated like a recursive spec (uninterpreted, unfolded at ground applications)
 	UsesLen   []bool // per parameter: does the body depend on len(param)?
 	File      string
 	Line      int
@@ -125,7 +127,7 @@ type Contracts struct {
 
 var clauseKeywords = map[string]bool{"requires": true, "ensures": true, "loop": true, "modifies": true, "serves": true,
 	"use": true, "inline": true, "trusted": true, "status:": true, "pure": true, "induction": true, "trigger": true,
-	"nosafety": true, "alphabet": true, "maxlen": true, "decreases": true, "ih": true, "unclaimed": true, "inlinecall": true, "callsite": true, "site": true, "havoccall": true, "ghost": true, "inlined": true}
+	"nosafety": true, "alphabet": true, "maxlen": true, "decreases": true, "ih": true, "unclaimed": true, "inlinecall": true, "contractcall": true, "callsite": true, "site": true, "havoccall": true, "ghost": true, "inlined": true}
 
 func loadContracts(dirs map[string]string) (*Contracts, error) {
 	cs := &Contracts{Funcs: map[string]*FuncContract{}, Specs: map[string]*SpecFunc{}, Lemmas: map[string]*Lemma{}}
@@ -148,7 +150,7 @@ func loadContracts(dirs map[string]string) (*Contracts, error) {
 		}
 	}
 	for _, sf := range cs.Specs {
-		sf.Recursive = callsSpec(sf.Body, sf.Name, cs, map[string]bool{})
+		sf.Recursive = sf.Opaque || callsSpec(sf.Body, sf.Name, cs, map[string]bool{})
 		sf.UsesLen = make([]bool, len(sf.Params))
 	}
 	// fixpoint: a sequence parameter "uses its length" unless it only occurs as s[i]
@@ -318,6 +320,7 @@ func (cs *Contracts) parseFile(pkg, file, data string) error {
 				cs.FieldRangeWhy = map[string]string{}
 			}
 			cs.FieldRanges["F:"+f[1]] = [2]int64{lo, hi}
+			cs.FieldRanges["E:"+f[1]] = [2]int64{lo, hi} // the same field of a struct stored in a slice element
 			cs.FieldRangeWhy["F:"+f[1]] = strings.Join(f[4:], " ")
 			cur = nil
 			continue
@@ -688,6 +691,12 @@ func (cs *Contracts) parseFunc(pkg, file string, e *rawEntry) error {
 					fc.InlineCalls = append(fc.InlineCalls, m)
 				}
 			}
+		case "contractcall":
+			for _, m := range strings.Split(strings.TrimSpace(strings.TrimPrefix(c.text, "contractcall")), ",") {
+				if m = strings.TrimSpace(m); m != "" {
+					fc.ContractCalls = append(fc.ContractCalls, m)
+				}
+			}
 		case "unclaimed":
 			f := strings.Fields(c.text)
 			if len(f) < 3 {
@@ -747,6 +756,13 @@ func (cs *Contracts) parseSpec(pkg, file string, e *rawEntry) error {
 		return fmt.Errorf("bad spec header %q", text)
 	}
 	name := strings.TrimSpace(text[:lp])
+	// "spec opaque F(...)": F is kept as an uninterpreted symbol (like a recursive spec function): its defining
+	// equation is supplied at the ground applications of a VC only, never under a quantifier
+	opaque := false
+	if rest, ok := strings.CutPrefix(name, "opaque "); ok {
+		opaque = true
+		name = strings.TrimSpace(rest)
+	}
 	params, err := parseParams(text[lp+1 : rp])
 	if err != nil {
 		return err
@@ -764,7 +780,7 @@ func (cs *Contracts) parseSpec(pkg, file string, e *rawEntry) error {
 	if _, dup := cs.Specs[name]; dup {
 		return fmt.Errorf("duplicate spec %s", name)
 	}
-	cs.Specs[name] = &SpecFunc{Name: name, Params: params, Result: rt, Body: body, Text: strings.TrimSpace(rest[eq+1:]), File: filepath.Base(file), Line: e.line}
+	cs.Specs[name] = &SpecFunc{Name: name, Params: params, Result: rt, Body: body, Text: strings.TrimSpace(rest[eq+1:]), File: filepath.Base(file), Line: e.line, Opaque: opaque}
 	return nil
 }
 
